@@ -237,12 +237,55 @@ def seed_value(fn, call):
     return t
 
 
+DMF = "program_structure/src/intermediate_representation/degree_meta.rs"
+
+
+def eval_degree_env(ctx, R):
+    """DegreeEnvironment as a map, by evaluation: after set_degree(v, r) the degree of v is r - also when v already
+    had a range (the last range recorded wins; keeping the first one freezes a provisional bound) - and other
+    variables are untouched."""
+    import passeval
+    from finfun import S, Unsupported
+    from passeval import MMap, O
+
+    try:
+        w = passeval.PassWorld([DMF], DMF)
+    except Exception:
+        return False
+    fields = w.structs.get("DegreeEnvironment")
+    if not fields or ("DegreeEnvironment", "set_degree") not in w.methods or ("DegreeEnvironment", "degree") not in w.methods:
+        return False
+    sd, dg = w.methods[("DegreeEnvironment", "set_degree")][0], w.methods[("DegreeEnvironment", "degree")][0]
+    v, u, r0, r1, ru = O("v"), O("u"), O("range0"), O("range1"), O("range-of-u")
+    bad = None
+    n = 0
+    for had in (False, True):
+        ranges = MMap([[u, ru]] + ([[v, r0]] if had else []))
+        envv = S("DegreeEnvironment", *[ranges if f == "degree_ranges" else MMap() for f in fields])
+        try:
+            w.call_fn(sd, [envv, v, r1])
+            got_v = w.call_fn(dg, [envv, v])
+            got_u = w.call_fn(dg, [envv, u])
+        except Unsupported as ex:
+            ctx.note("DegreeEnvironment::set_degree is outside the evaluator's subset (%s)" % ex)
+            return False
+        n += 1
+        if got_v != S("Some", r1) or got_u != S("Some", ru):
+            bad = bad or "variable %s a range before: after set_degree(v, range1) degree(v) = %s, degree(u) = %s" % ("had" if had else "had no", got_v, got_u)
+    ctx.check(R, "DegreeEnvironment/set_degree-records-the-given-range", bad is None and n == 2, bad or "degree(v) is the range last set, whether or not v had one; other variables untouched", DMF)
+    return True
+
+
 def rule_env(ctx):
     R = "C07.3"
     ctx.rule(R, "degree environment seeds: signals and components Linear, template parameters Constant, function parameters Constant..Linear; set_degree is called from nowhere else except the assignment rule")
     fn = find_fn(CFG, "propagate_degrees", "Cfg")
     if fn is None:
         return ctx.missing(R, "Cfg::propagate_degrees")
+    if not eval_degree_env(ctx, R):
+        sdf = find_fn(DMF, "set_degree", "DegreeEnvironment")
+        ins = list(method_calls(sdf["body"], "insert")) if sdf else []
+        ctx.check(R, "DegreeEnvironment/set_degree-records-the-given-range", len(ins) == 1 and not (conditions_to(sdf["body"], ins[0]) or []), "the insert must be unconditional", DMF)
     seeds = list(method_calls(fn["body"], "set_degree"))
     ctx.floor(R, "parameter-seeds", len(seeds), 2)
     for s in seeds:
